@@ -161,9 +161,20 @@ Definition lookup (n : nat) (r : comp) (e : ev) (s : st) : st * list comp :=
             (set_cache s1 (upd (cache s1) r ((key_of e, ms) :: cache s1 r)), ms)
   end.
 
-(* _do_prepare_unregister_complete (with the refresh of the own cache flag, /repo b76568c) *)
+(* the members of the detached subtree of c, other than c, whose own unregistration is pending *)
+Definition refire_list (n : nat) (c : comp) (s : st) : list comp :=
+  let kd := if par s c =? c then kid s else upd2 (kid s) (par s c) c false in
+  filter (fun d => negb (d =? c) && pend s d) (members n kd c).
+
+(* their prepare_unregister is fired again, now into the queue of their new root c *)
+Definition refire (l : list comp) (c : comp) (s : st) : st :=
+  fold_left (fun s' d => enq c (PrepUnreg d) s') l s.
+
+(* _do_prepare_unregister_complete (with the refresh of the own cache flag, /repo b76568c, and with
+   fixes/C07_nested_unregister_completes.patch: a stale completion event is ignored, and the unregistration
+   of pending members of the detached subtree is started again in the new tree) *)
 Definition complete (n : nat) (c : comp) (s : st) : res st :=
-  if negb (pend s c) then Crash else
+  if negb (pend s c) then Ok s else
   let p := par s c in
   let s1 := enq (rt s c) (Unregistered c p) (set_pend s (upd (pend s) c false)) in
   let s2 := if p =? c then Ok s1
@@ -175,7 +186,8 @@ Definition complete (n : nat) (c : comp) (s : st) : res st :=
   | Ok s3 =>
       match upd_root n (S n) (kid s3) c c (rt s3) with
       | None => OutOfFuel
-      | Some f => Ok (set_unregd (set_dirty (set_rt s3 f) (upd (dirty s3) c true)) ((c, p) :: unregd s3))
+      | Some f => Ok (refire (refire_list n c s) c
+                        (set_unregd (set_dirty (set_rt s3 f) (upd (dirty s3) c true)) ((c, p) :: unregd s3)))
       end
   | r => r
   end.
@@ -248,9 +260,13 @@ Definition unregisterX (c0 : ctx) (n : nat) (c : comp) (s : st) : res st :=
 Definition fireX (c0 : ctx) (n : nat) (x : comp) (i : nat) (s : st) : res st :=
   with_fx (fire n x i s) (emit_fx c0 (rt s x) (Probe i) (fx s)).
 
-(* prepare_unregister_complete has no cause: the unregistered event it fires is not linked *)
+(* prepare_unregister_complete has no cause: the events its handler fires are not linked *)
 Definition completeX (n : nat) (c : comp) (s : st) : res st :=
-  with_fx (complete n c s) (emit_fx None (rt s c) (Unregistered c (par s c)) (fx s)).
+  with_fx (complete n c s)
+          (if pend s c
+           then fold_left (fun x d => emit_fx None c (PrepUnreg d) x) (refire_list n c s)
+                          (emit_fx None (rt s c) (Unregistered c (par s c)) (fx s))
+           else fx s).
 
 Fixpoint wl_find (A : nat) (l : list (nat * comp)) : option comp :=
   match l with [] => None | (B, c) :: t => if A =? B then Some c else wl_find A t end.
